@@ -61,6 +61,8 @@ def _toks(spine: list) -> list:
             out.append(_fix(k))
         elif s == "sym":
             out.append(_sym(k))
+        elif isinstance(s, tuple) and s[0] == "int":
+            out.append(_tok(k, VF.Int()))
         else:
             out.append(_tok(k, VF.Const(s)))
     return out
@@ -377,6 +379,100 @@ def document(kind: str) -> VF.FunctionContract:
             "name-is-envelope-name": lambda a, r: S.str_eq(S.attr(r, "name"), "DOC"),
             "key-is-key-token-text": lambda a, r: S.str_eq(S.attr(sec(r)[0], "key"), S.attr(_tk(a, 2), "value")),
             "value-is-token-value": lambda a, r: _same(S.attr(sec(r)[0], "value"), S.attr(_tk(a, 4), "value")),
+        },
+        raises=(),
+    )
+
+
+# ---- lenient layout freedoms at the parser level (C03): the same tree from a differently laid out token stream ---------
+def _indent(name: str):
+    return ("INDENT", ("int", name))
+
+
+def block_child_lenient(kind: str, blank_lines: bool) -> VF.FunctionContract:
+    """NAME: / KEY::<scalar> with ANY indentation width n >= 1 (the INDENT token's value is symbolic) and, optionally, blank
+    lines after the header and after the child: the same Block as the canonical two-space layout"""
+    nl = [("NEWLINE", None)] * (2 if blank_lines else 1)
+    spine = [("IDENTIFIER", "sym"), ("BLOCK", None)] + nl + [_indent("n"), ("IDENTIFIER", "sym"), ("ASSIGN", None), (kind, "sym")] + nl + [("EOF", None)]
+    toks = _toks(spine)
+    kpos = len(nl) + 3
+    vpos = kpos + 2
+
+    def ch(r):
+        return S.items(S.attr(r, "children"))
+
+    def pre(a):
+        n = S.attr(_tk(a, len(nl) + 2), "value")
+        return S.And(_pre([vpos] if kind == "NUMBER" else [], depth=False)(a), n >= 1)
+
+    return VF.FunctionContract(
+        PARSER,
+        "Parser.parse_section",
+        label=f"#BLOCK:KEY::{kind}@any-indent" + ("+blank-lines" if blank_lines else ""),
+        inline_depth=8,
+        setup=lambda I: setattr(I, "recursion_ok", {PARSER + ":Parser.parse_section"}),
+        params={"self": _parser(toks, nested=False), "base_indent": VF.Const(0)},
+        pre=pre,
+        posts={
+            "is-block-with-one-assignment": lambda a, r: _cls(r) == "Block" and len(ch(r)) == 1 and _cls(ch(r)[0]) == "Assignment",
+            "block-key-is-key-token-text": lambda a, r: S.str_eq(S.attr(r, "key"), S.attr(_tk(a, 0), "value")),
+            "child-key-is-key-token-text": lambda a, r: len(ch(r)) == 1 and S.str_eq(S.attr(ch(r)[0], "key"), S.attr(_tk(a, kpos), "value")),
+            "child-value-is-token-value": lambda a, r: len(ch(r)) == 1 and _same(S.attr(ch(r)[0], "value"), S.attr(_tk(a, vpos), "value")),
+        },
+        raises=(),
+    )
+
+
+def list_multiline(k1: str, k2: str) -> VF.FunctionContract:
+    """[ NEWLINE INDENT v1 , NEWLINE INDENT v2 NEWLINE INDENT ] with arbitrary indentation widths: the items of the one-line list"""
+    spine = [("LIST_START", None), ("NEWLINE", None), _indent("n1"), (k1, "sym"), ("COMMA", None), ("NEWLINE", None), _indent("n2"), (k2, "sym"), ("NEWLINE", None), _indent("n3"), ("LIST_END", None), ("NEWLINE", None), ("EOF", None)]
+    toks = _toks(spine)
+    return VF.FunctionContract(
+        PARSER,
+        "Parser.parse_list",
+        label=f"#multi-line[{k1},{k2}]",
+        params={"self": _parser(toks)},
+        pre=_pre([p for p, k in ((3, k1), (7, k2)) if k == "NUMBER"]),
+        posts={
+            "is-list-of-two": lambda a, r: _cls(r) == "ListValue" and len(S.items(S.attr(r, "items"))) == 2,
+            "item0-is-token-value": lambda a, r: len(S.items(S.attr(r, "items"))) == 2 and _same(S.items(S.attr(r, "items"))[0], S.attr(_tk(a, 3), "value")),
+            "item1-is-token-value": lambda a, r: len(S.items(S.attr(r, "items"))) == 2 and _same(S.items(S.attr(r, "items"))[1], S.attr(_tk(a, 7), "value")),
+            "consumed-through-the-closing-bracket": lambda a, r: S.attr(a.self, "pos") == 11,
+        },
+        raises=(),
+    )
+
+
+def document_lenient(kind: str, variant: str) -> VF.FunctionContract:
+    """===DOC=== / KEY::<scalar> with blank lines around it ('blank'), without ===END=== ('no-end'), or both ('both'):
+    the same Document as the canonical layout"""
+    nl = [("NEWLINE", None)] * (2 if variant in ("blank", "both") else 1)
+    spine = [("ENVELOPE_START", "DOC")] + nl + [("IDENTIFIER", "sym"), ("ASSIGN", None), (kind, "sym")] + nl
+    if variant not in ("no-end", "both"):
+        spine += [("ENVELOPE_END", "END"), ("NEWLINE", None)]
+    spine.append(("EOF", None))
+    toks = _toks(spine)
+    kpos = 1 + len(nl)
+    vpos = kpos + 2
+
+    def sec(r):
+        return S.items(S.attr(r, "sections"))
+
+    def pre(a):
+        return S.And(_pre([vpos] if kind == "NUMBER" else [], depth=False)(a), S.Not(S.str_eq(S.attr(_tk(a, kpos), "value"), "META")))
+
+    return VF.FunctionContract(
+        PARSER,
+        "Parser.parse_document",
+        label=f"#DOC[KEY::{kind}]@{variant}",
+        inline_depth=8,
+        params={"self": _parser(toks, nested=False)},
+        pre=pre,
+        posts={
+            "is-document-with-one-assignment": lambda a, r: _cls(r) == "Document" and len(sec(r)) == 1 and _cls(sec(r)[0]) == "Assignment",
+            "name-is-envelope-name": lambda a, r: S.str_eq(S.attr(r, "name"), "DOC"),
+            "key-is-key-token-text": lambda a, r: len(sec(r)) == 1 and S.str_eq(S.attr(sec(r)[0], "key"), S.attr(_tk(a, kpos), "value")),
+            "value-is-token-value": lambda a, r: len(sec(r)) == 1 and _same(S.attr(sec(r)[0], "value"), S.attr(_tk(a, vpos), "value")),
         },
         raises=(),
     )
